@@ -101,6 +101,10 @@ func skipTag(data []byte, wireType csproto.WireType) (skip int, err error) {
 		if err != nil {
 			return 0, err
 		}
+		// Compare as uint64: a size that does not fit in an int must not wrap around
+		if size > uint64(len(data)-n) {
+			return 0, io.ErrUnexpectedEOF
+		}
 		skip = int(size) + n
 	case csproto.WireTypeFixed32:
 		skip = 4
